@@ -61,6 +61,7 @@ type regRun struct {
 	naSet  bool
 	nRoute int
 	late   []lateUse
+	keep   *regKeep // controller values registered more than once (shared by the routers of one case)
 }
 
 // newRegRun: cache 0 = no route cache, 1000 = EnableCaching (its default size), n = CachingWithNum(n).
@@ -317,7 +318,7 @@ func (e *regRun) lineOK(f []string) bool {
 		_, ok3 := parseInts(f[5])
 		_, ok4 := parseInts(f[6])
 		_, ok5 := e.arg(f[7])
-		return ok0 && ok1 && ok2 && ok3 && ok4 && ok5 && (f[2] == "ptr" || f[2] == "val" || f[2] == "ptrint")
+		return ok0 && ok1 && ok2 && ok3 && ok4 && ok5 && (f[2] == "ptr" || f[2] == "val" || f[2] == "ptrint" || f[2] == "same")
 	}
 	return false
 }
@@ -476,6 +477,62 @@ func (e *regRun) execRoute(f []string) {
 	}
 }
 
+// regKeep: the controller VALUES of one case that are registered more than once (`resource <rid> same …`).
+// It outlives `new`: the same value can be handed to Resource on a second router. The closures of a kept
+// controller (its actions, the middleware in its Uses() map) record into the router that is current.
+// The Uses() map of a kept controller is built ONCE (the generated U-types return the field `uses`).
+type regKeep struct {
+	cur   *regRun
+	ctrls map[int]*regKeptCtrl
+}
+
+type regKeptCtrl struct {
+	ptr    interface{}
+	im, um int
+}
+
+// regCarry makes `next` the current router of the case `prev` belongs to.
+func regCarry(prev, next *regRun) *regRun {
+	if prev != nil && prev.keep != nil {
+		next.keep = prev.keep
+		next.keep.cur = next
+	}
+	return next
+}
+
+// keptCtrl returns the case's controller value for (rid, implemented actions, Uses() keys), creating it on
+// first use.
+func (e *regRun) keptCtrl(rid, im, um int) interface{} {
+	if e.keep == nil {
+		e.keep = &regKeep{cur: e, ctrls: map[int]*regKeptCtrl{}}
+	}
+	k := e.keep
+	if kc, ok := k.ctrls[rid]; ok && kc.im == im && kc.um == um {
+		return kc.ptr
+	}
+	cb := ctrlBase{hit: func(a int, c *rux.Context) {
+		k.cur.trace = append(k.cur.trace, fmt.Sprintf("e%d", rid+a))
+		c.WriteString("ok")
+		k.cur.trace = append(k.cur.trace, fmt.Sprintf("l%d", rid+a))
+	}}
+	if um != 0 {
+		cb.uses = map[string][]rux.HandlerFunc{}
+		for a, n := range restActions {
+			if um&(1<<uint(a)) != 0 {
+				tag := rid + 10 + a
+				cb.uses[n] = []rux.HandlerFunc{func(c *rux.Context) {
+					k.cur.trace = append(k.cur.trace, fmt.Sprintf("e%d", tag))
+					c.Next()
+					k.cur.trace = append(k.cur.trace, fmt.Sprintf("l%d", tag))
+				}}
+			}
+		}
+	}
+	ptr, _ := newCtrl(im&127, um != 0, cb)
+	k.ctrls[rid] = &regKeptCtrl{ptr, im, um}
+	return ptr
+}
+
 func (e *regRun) execResource(f []string) {
 	rids, _ := parseInts(f[1])
 	rid := rids[0]
@@ -506,6 +563,8 @@ func (e *regRun) execResource(f []string) {
 		e.r.Resource(base, val, mws...)
 	case "ptrint":
 		e.r.Resource(base, new(notStruct), mws...)
+	case "same":
+		e.r.Resource(base, e.keptCtrl(rid, im[0], um[0]), mws...)
 	}
 	if after := e.scope(); after != before {
 		e.oracle = append(e.oracle, fmt.Sprintf("C12 restore: scope %q before Resource(%q) but %q after it returned", before, base, after))
@@ -597,7 +656,7 @@ func (regEngine) Run(ops []string) (ans []string, oracle []string) {
 	for _, op := range ops {
 		if o, c, ok := parseNew(strings.Fields(op)); ok {
 			oracle = append(oracle, e.oracle...)
-			e = newRegRun(o, c)
+			e = regCarry(e, newRegRun(o, c))
 			ans = append(ans, "ok")
 			continue
 		}
@@ -849,6 +908,15 @@ func (regEngine) Corpus() []Case {
 		{Ops: []string{"new 0", "buf 1 2000,2001,2002", "group " + h("/x") + " @1:1:3", "use 2003",
 			"route 1 verb - GET " + h("/r1") + " - e", "end", "group " + h("/y") + " @1:0:3",
 			"route 2 verb - GET " + h("/r2") + " - e", "end", "run", "info 1", "info 2", "serve 2 GET"}},
+		// ONE controller value (its Uses() hands out one persistent map) registered in two groups of a router and
+		// again on a second router: every registration attaches the per-action middleware
+		{Ops: []string{"new 0", "group " + h("/a") + " 2000", "resource 1000 same " + h("/") + " " + h("u127") + " 127 120 -", "end",
+			"group " + h("/b") + " 2001+2", "use 2002", "resource 1000 same " + h("/") + " " + h("u127") + " 127 120 2003", "end", "run",
+			"info 1003", "info 1004", "serve 1003 GET", "serve 1006 DELETE", "probe GET " + h("/a/u127/7"), "probe GET " + h("/b/u127/7"),
+			"probe GET " + h("/a/u127/7/edit"), "probe GET " + h("/b/u127/7/edit"), "probe PATCH " + h("/a/u127/7"),
+			"probe PATCH " + h("/b/u127/7"), "probe DELETE " + h("/b/u127/7"), "probe GET " + h("/b/u127"), "routes",
+			"new 1", "resource 1000 same " + h("/c/") + " " + h("u127") + " 127 120 -", "run", "info 1003", "info 1005",
+			"serve 1004 GET", "probe PUT " + h("/c/u127/7"), "probe DELETE " + h("/c/u127/7"), "probe POST " + h("/c/u127/7")}},
 	}
 }
 
